@@ -35,8 +35,32 @@ def _find(body, cls, name=None):
     _fail(f"class {cls} not found")
 
 
-def _const_num(node):
-    """evaluate a constant arithmetic expression made of numbers, + - * ** and unary minus"""
+MODULE_CONSTS: dict = {}            # NAME -> value node, for module-level `NAME = <constant expression>` bound once
+
+
+def _collect_module_consts(tree):
+    MODULE_CONSTS.clear()
+    seen = {}
+    for st in tree.body:
+        tgt = None
+        if isinstance(st, ast.Assign) and len(st.targets) == 1 and isinstance(st.targets[0], ast.Name):
+            tgt, val = st.targets[0].id, st.value
+        elif isinstance(st, ast.AnnAssign) and isinstance(st.target, ast.Name) and st.value is not None:
+            tgt, val = st.target.id, st.value
+        if tgt is not None:
+            seen[tgt] = None if tgt in seen else val       # bound twice: not a constant
+    rebound = {n.id for n in ast.walk(tree) if isinstance(n, ast.Name) and isinstance(n.ctx, (ast.Store, ast.Del))}
+    globs = {nm for n in ast.walk(tree) if isinstance(n, ast.Global) for nm in n.names}
+    for k, v in seen.items():
+        if v is not None and k not in globs:
+            MODULE_CONSTS[k] = v
+
+
+def _const_num(node, _depth=0):
+    """evaluate a constant arithmetic expression made of numbers, + - * ** and unary minus; a module-level name that is
+    bound exactly once to such an expression (MAX_ATTEMPTS = 1000) stands for its value"""
+    if isinstance(node, ast.Name) and node.id in MODULE_CONSTS and _depth < 5:
+        return _const_num(MODULE_CONSTS[node.id], _depth + 1)
     if isinstance(node, ast.Constant) and isinstance(node.value, (int, float)) and not isinstance(node.value, bool):
         return node.value
     if isinstance(node, ast.UnaryOp) and isinstance(node.op, ast.USub):
@@ -63,12 +87,16 @@ def _strip_doc(body):
 
 def extract(src: str) -> dict:
     tree = ast.parse(src)
+    _collect_module_consts(tree)
     out = {}
     # --- find_unclaimed_identifier ---------------------------------------------------------------
     f = _find(tree.body, "RandomNumberCache", "find_unclaimed_identifier")
     body = _strip_doc(f.body)
-    if len(body) != 2 or not isinstance(body[0], ast.For) or not isinstance(body[1], ast.Return):
-        _fail("find_unclaimed_identifier: expected `for … else …; return number`")
+    # two equivalent shapes:  for…: n = …; if not has: break / else: raise; return n
+    #                         for…: n = …; if not has: return n / (after the loop) raise
+    early = (len(body) >= 2 and isinstance(body[0], ast.For) and not body[0].orelse and isinstance(body[-1], ast.Raise))
+    if not early and (len(body) != 2 or not isinstance(body[0], ast.For) or not isinstance(body[1], ast.Return)):
+        _fail("find_unclaimed_identifier: expected `for … else raise; return number` or `for …: return number; raise`")
     loop = body[0]
     it = loop.iter
     if not (isinstance(it, ast.Call) and isinstance(it.func, ast.Name) and it.func.id == "range" and len(it.args) == 1):
@@ -86,17 +114,26 @@ def extract(src: str) -> dict:
         _fail("find_unclaimed_identifier: number is not int(random() * SPACE)")
     out["numberSpace"] = int(_const_num(right))
     cond = loop.body[1]
-    ok = (isinstance(cond.test, ast.UnaryOp) and isinstance(cond.test.op, ast.Not)
-          and isinstance(cond.test.operand, ast.Call) and isinstance(cond.test.operand.func, ast.Attribute)
-          and cond.test.operand.func.attr == "has" and len(cond.test.operand.args) == 2
-          and [getattr(a, "id", None) for a in cond.test.operand.args] == ["prefix", asg.targets[0].id]
-          and len(cond.body) == 1 and isinstance(cond.body[0], ast.Break) and not cond.orelse)
-    if not ok:
-        _fail("find_unclaimed_identifier: guard is not `if not request_cache.has(prefix, number): break`")
-    if not (loop.orelse and isinstance(loop.orelse[-1], ast.Raise)):
-        _fail("find_unclaimed_identifier: exhausting the loop does not raise")
-    if not (isinstance(body[1].value, ast.Name) and body[1].value.id == asg.targets[0].id):
-        _fail("find_unclaimed_identifier: does not return the number that passed the guard")
+    num = asg.targets[0].id
+    guard = (isinstance(cond.test, ast.UnaryOp) and isinstance(cond.test.op, ast.Not)
+             and isinstance(cond.test.operand, ast.Call) and isinstance(cond.test.operand.func, ast.Attribute)
+             and cond.test.operand.func.attr == "has" and len(cond.test.operand.args) == 2
+             and [getattr(a, "id", None) for a in cond.test.operand.args] == ["prefix", num]
+             and len(cond.body) == 1 and not cond.orelse)
+    if early:
+        ok = guard and isinstance(cond.body[0], ast.Return) and isinstance(cond.body[0].value, ast.Name) \
+            and cond.body[0].value.id == num \
+            and all(isinstance(b, ast.Assign) and _is_pure_expr(b.value, set()) for b in body[1:-1])
+        if not ok:
+            _fail("find_unclaimed_identifier: guard is not `if not request_cache.has(prefix, number): return number` "
+                  "followed by the raise")
+    else:
+        if not (guard and isinstance(cond.body[0], ast.Break)):
+            _fail("find_unclaimed_identifier: guard is not `if not request_cache.has(prefix, number): break`")
+        if not (loop.orelse and isinstance(loop.orelse[-1], ast.Raise)):
+            _fail("find_unclaimed_identifier: exhausting the loop does not raise")
+        if not (isinstance(body[1].value, ast.Name) and body[1].value.id == num):
+            _fail("find_unclaimed_identifier: does not return the number that passed the guard")
     # --- NumberCache.timeout_delay ----------------------------------------------------------------
     f = _find(tree.body, "NumberCache", "timeout_delay")
     body = _strip_doc(f.body)
@@ -574,15 +611,18 @@ class _Seq:
         it, tgt = st.iter, st.target
         if not (isinstance(it, ast.Attribute) and it.attr == "managed_futures" and isinstance(it.value, ast.Name)
                 and it.value.id == cache and isinstance(tgt, ast.Tuple) and len(tgt.elts) == 2
-                and all(isinstance(e, ast.Name) for e in tgt.elts) and not st.orelse and len(st.body) == 1):
+                and all(isinstance(e, ast.Name) for e in tgt.elts) and not st.orelse and len(st.body) in (1, 2)):
             return False
         fut, val = tgt.elts[0].id, tgt.elts[1].id
         g = st.body[0]
-        if not (isinstance(g, ast.If) and not g.orelse and isinstance(g.test, ast.UnaryOp) and isinstance(g.test.op, ast.Not)
-                and isinstance(g.test.operand, ast.Call) and _call_name(g.test.operand.func) == fut + ".done"
-                and len(g.body) == 1):
+        if len(st.body) == 2 and isinstance(g, ast.If) and not g.orelse and ast.unparse(g.test) == f"{fut}.done()" \
+                and len(g.body) == 1 and isinstance(g.body[0], ast.Continue):
+            c = st.body[1]                                      # guard clause: `if future.done(): continue`
+        elif len(st.body) == 1 and isinstance(g, ast.If) and not g.orelse and ast.unparse(g.test) == f"not {fut}.done()" \
+                and len(g.body) == 1:
+            c = g.body[0]
+        else:
             return False
-        c = g.body[0]
         if not (isinstance(c, ast.If) and isinstance(c.test, ast.Call) and _call_name(c.test.func) == "isinstance"
                 and len(c.test.args) == 2 and isinstance(c.test.args[0], ast.Name) and c.test.args[0].id == val
                 and isinstance(c.test.args[1], ast.Name) and c.test.args[1].id == "Exception"
@@ -713,6 +753,16 @@ def check_delay_rule(sq, cls_node):
                     and isinstance(hb[0].body[0], ast.Return) and isinstance(hb[1], ast.Return) \
                     and ast.unparse(hb[0].body[0].value) == "self._timeout_override" \
                     and ast.unparse(hb[1].value) == f"{hp}.timeout_delay" and _canon(hb[0].test, hp) == CANON_COND:
+                return
+            # the inline block moved verbatim:  x = cache.timeout_delay; if COND: x = self._timeout_override; return x
+            if len(hb) == 3 and isinstance(hb[0], ast.Assign) and len(hb[0].targets) == 1 \
+                    and isinstance(hb[0].targets[0], ast.Name) and ast.unparse(hb[0].value) == f"{hp}.timeout_delay" \
+                    and isinstance(hb[1], ast.If) and not hb[1].orelse and len(hb[1].body) == 1 \
+                    and isinstance(hb[1].body[0], ast.Assign) and len(hb[1].body[0].targets) == 1 \
+                    and ast.unparse(hb[1].body[0].targets[0]) == hb[0].targets[0].id \
+                    and ast.unparse(hb[1].body[0].value) == "self._timeout_override" \
+                    and _canon(hb[1].test, hp) == CANON_COND \
+                    and isinstance(hb[2], ast.Return) and ast.unparse(hb[2].value) == hb[0].targets[0].id:
                 return
     _fail("add: cannot recognise how the delay handed to register_task is computed: " + base[:120])
 
